@@ -152,6 +152,11 @@ CLAIMS["C14"]["text"] += " H-cancel/time: the same with time-based batching; sca
 CLAIMS["C10"]["text"] += (" H-role: each CLI command that can act as submitter (try-submit-jobs, cancel-jobs, resubmit-jobs, show-status) run while another process on the same or another host holds the role, "
                           "on a complete or incomplete submission: role, state and HPC untouched, no lock left, the holder's next write accepted. H-submit/double-recovery: two overlapping try-submit-jobs on one host.")
 
+CLAIMS["C03"]["text"] += " " + _KC + "(a job canceled twice in one round = two result entries for one job.) H-submit/N3 includes the triangle j0 <- j1, {j0, j1} <- j2."
+CLAIMS["C04"]["text"] += " K-queue/N3/nonmanager: the same node-level loop on a node that is not its multi-node batch's manager (records nothing): canceled jobs never started, every other job exactly once, after its blockers' processes exited."
+CLAIMS["C16"]["text"] += " H-hooks/resubmit: all four hooks through a submission that completes, is resubmitted and completes again, twice: setup once in total, teardown once per completion after every rerun job has an outcome, node hooks once per batch of each resubmission."
+CLAIMS["C10"]["text"] += " H-cluster's operation alphabet includes mark_complete by the role holder (a complete submission whose last submitter has not demoted yet)."
+CLAIMS["C17"]["text"] += " K-config chooses max_nodes of both groups from {unset, 3, 7} independently (rejected exactly when they differ)."
 CLAIMS["C13"]["text"] += (" H-resubmit/twice: the completed resubmission (exit codes of the rerun solver-chosen, so jobs fail or are canceled again) is resubmitted a second time with solver-chosen flags; "
                           "same oracles in both rounds plus counters == total after each completion. H-resubmit/fault: ONE injected error inside resubmit-jobs at a solver-chosen position - EDQUOT at each write-open "
                           "of a result file or submitter_groups.json, lock Timeout at each lock acquisition before the submission round, sbatch failing on every retry - under the installed filelock's behaviour (stale markers broken); "
